@@ -16,9 +16,18 @@
     output:  #<tag> <db|-> <cmd> <hexargs…>      one line per target request
              #<tag> sp k=<k> off=<o> dbs=<d,…|->   per crash prefix
              #<tag> end
+
+    hist tag=<n> | <step> | <step> …   (C07, ALL writers of the position: Model/PositionWriters.lean)
+      step = snap off=<o>              end-of-snapshot SetCheckpoint
+           | relabel gone=<db,…|-|*>   UpdateCheckpoint, complete (*) or cut (old records of these DBs deleted)
+           | reset gone=<db,…|-|*>     ResetStartPoint, complete (*) or cut
+           | life k=<k> <send tokens>  one life of the loop (tokens as for `send`), dies after k requests
+    output:  #<tag> pos i=<i> off=<o> dbs=<d,…|->   after every step (what GetCheckpoint reads)
+             #<tag> end
 -/
 import GunYu.Model.Sender
 import GunYu.Model.Target
+import GunYu.Model.PositionWriters
 import GunYu.Gen.FilterConsts
 
 namespace GunYu.Drive.Sender
@@ -128,8 +137,17 @@ def insertSorted (e : TEv) : List TEv → List TEv
 
 def sortEvs (l : List TEv) : List TEv := l.foldl (fun acc e => insertSorted e acc) []
 
-def handle : List String → Option (List String)
-  | "send" :: toks =>
+/-- what a `send` line describes: the sender configuration, the loop's event list (the parser
+    model fed with the writes, merged with the ticker ticks by time) and the rendering parameters -/
+structure Case where
+  tag : String
+  sc : SCfg
+  evs : List Ev
+  cp : Bytes
+  rid : Bytes
+  ver : Bytes
+
+def mkCase (toks : List String) : Case :=
     let tag := "#" ++ kv toks "tag"
     let f : F := { dbs := (splitList (kv toks "fdb") ",").map parseIntS,
                    cmds := (hexList (kv toks "fcmd")) ++ noRouteCmds,
@@ -204,6 +222,54 @@ def handle : List String → Option (List String)
         | _ => walk rest ps raws off failed (Ev.done :: acc)
     let pre : List Ev := if pc.startDbId > 0 then [Ev.item (selectItem pc.startDbId start)] else []
     let evs := pre ++ walk all { lastSent := start } rawArgs start false []
+    { tag := tag, sc := sc, evs := evs, cp := cp, rid := rid, ver := ver }
+
+def goneOf (s : String) : Int → Bool :=
+  if s == "*" then fun _ => true
+  else
+    let l := (splitList s ",").map parseIntS
+    fun d => l.contains d
+
+def showPos (tag : String) (i : Nat) (t : TState) : String :=
+  let (o, dbs) := startPoint t
+  let ds := if dbs.isEmpty then "-" else String.intercalate "," ((dbs.mergeSort (· ≤ ·)).map toString)
+  s!"{tag} pos i={i} off={o} dbs={ds}"
+
+/-- split a token list at the "|" tokens -/
+def splitSteps (toks : List String) : List (List String) :=
+  let r := toks.foldl (fun (acc : List (List String) × List String) t =>
+    if t == "|" then (acc.2.reverse :: acc.1, []) else (acc.1, t :: acc.2)) ([], [])
+  (r.2.reverse :: r.1).reverse
+
+def histStep (t : TState) : List String → Option TState
+  | "snap" :: toks => some (PosWriters.applyOp t (.snapshot (parseIntS (kv toks "off"))))
+  | "relabel" :: toks => some (PosWriters.applyOp t (.relabel (goneOf (kv toks "gone"))))
+  | "reset" :: toks => some (PosWriters.applyOp t (.reset (goneOf (kv toks "gone"))))
+  | "life" :: toks =>
+    let c := mkCase toks
+    some (PosWriters.applyOp t (.life c.sc c.evs (kv toks "k").toNat!))
+  | _ => none
+
+def handle : List String → Option (List String)
+  | "hist" :: toks =>
+    match splitSteps toks with
+    | [] => none
+    | hd :: steps =>
+      let tag := "#" ++ kv hd "tag"
+      let r := steps.foldl (fun (acc : TState × Nat × List String) st =>
+        match histStep acc.1 st with
+        | some t' => (t', acc.2.1 + 1, showPos tag acc.2.1 t' :: acc.2.2)
+        | none => (acc.1, acc.2.1 + 1, s!"{tag} pos i={acc.2.1} bad-step" :: acc.2.2)) (({} : TState), 0, [])
+      some (r.2.2.reverse ++ [s!"{tag} end"])
+  | "send" :: toks =>
+    let c := mkCase toks
+    let tag := c.tag
+    let sc := c.sc
+    let evs := c.evs
+    let cp := c.cp
+    let rid := c.rid
+    let ver := c.ver
+    let _ := sc
     let (_, batches) := run sc initS evs
     let log := batches.flatten
     let lines := renderLog tag cp rid ver log
